@@ -140,6 +140,108 @@ def c10Dangling : V :=
 example : (rebuild c10Ext 40 c10Dangling).isOk = true := by decide +kernel
 example : (unserializeScope c10Ext c10JD 40 c10Dangling).isErr = true := by decide +kernel
 
+/-! ### the link check looks at ALL objects of a scope, not only at what the root reaches -/
+
+theorem extraObjs_mem {env : List (String × DObj)} : ∀ {objs : List (String × DObj)},
+    extraObjs env objs = true → ∀ p, p ∈ objs → extraObj env p.2 = true
+  | [], _, p, hp => by simp at hp
+  | (n, o) :: rest, h, p, hp => by
+    simp only [extraObjs, Bool.and_eq_true] at h
+    simp only [List.mem_cons] at hp
+    rcases hp with rfl | hp
+    · exact h.1
+    · exact extraObjs_mem h.2 p hp
+
+theorem extraProps_mem {env : List (String × DObj)} : ∀ {props : List (String × DProp)},
+    extraProps env props = true → ∀ np, np ∈ props → extraOK env np.2.ty = true
+  | [], _, np, hnp => by simp at hnp
+  | (n, p) :: rest, h, np, hnp => by
+    simp only [extraProps, Bool.and_eq_true] at h
+    simp only [List.mem_cons] at hnp
+    rcases hnp with rfl | hnp
+    · cases p; simpa [extraProp, DProp.ty] using h.1
+    · exact extraProps_mem h.2 np hnp
+
+theorem mem_forgetObjs (jd : JD) {n : String} {o : DObj} : ∀ {objs : List (String × DObj)},
+    (n, o) ∈ objs → (n, forgetObj jd o) ∈ forgetObjs jd objs
+  | [], h => by simp at h
+  | (qn, qo) :: rest, h => by
+    simp only [List.mem_cons] at h
+    simp only [forgetObjs, List.mem_cons]
+    rcases h with h | h
+    · left; cases h; rfl
+    · right; exact mem_forgetObjs jd h
+
+theorem mem_forgetProps (jd : JD) {np : String × DProp} : ∀ {props : List (String × DProp)},
+    np ∈ props → (np.1, forgetProp jd np.2) ∈ forgetProps jd props
+  | [], h => by simp at h
+  | (qn, qp) :: rest, h => by
+    simp only [List.mem_cons] at h
+    simp only [forgetProps, List.mem_cons]
+    rcases h with h | h
+    · left; cases h; rfl
+    · right; exact mem_forgetProps jd h
+
+/-- In an accepted scope EVERY object - whether or not the root object reaches it - has only
+    references into the scope's own namespace directly below its properties, each resolving to an
+    object of the scope; and every object is well-formed in the scope (`WF`), which covers the
+    references at any depth below lists, maps, one-of members and inline objects. -/
+theorem C10_all_objects (jd : JD) (objs : List (String × DObj)) (root : String)
+    (hl : linkCheck jd (.scope objs root) = true) :
+    (∀ p, p ∈ forgetObjs jd objs → WF (forgetObjs jd objs) p.2) ∧
+    (∀ o, o ∈ objs → ∀ np, np ∈ o.2.props → ∀ id ns d, np.2.ty = .ref id ns d →
+      ns = "" ∧ (lookupS id (forgetObjs jd objs)).isSome = true) := by
+  simp only [linkCheck, Bool.and_eq_true] at hl
+  have hwf : WF [] (forget jd (.scope objs root)) := wfB_sound _ _ _ hl.1
+  have hall : ∀ p, p ∈ forgetObjs jd objs → WF (forgetObjs jd objs) p.2 := by
+    simp only [forget] at hwf
+    cases hwf with
+    | scope _ h => exact h
+  refine ⟨hall, ?_⟩
+  intro o ho np hnp id ns d hty
+  have hx := hl.2
+  simp only [extraOK, Bool.and_eq_true] at hx
+  have h1 := extraObjs_mem hx.2 o ho
+  obtain ⟨on, ob⟩ := o
+  cases ob with
+  | mk oid unenf props =>
+    simp only [extraObj] at h1
+    have h2 := extraProps_mem h1 np hnp
+    simp only [DObj.props] at hnp
+    rw [hty] at h2
+    refine ⟨by simpa [extraOK] using h2, ?_⟩
+    -- the object is well-formed in the scope, so the reference resolves
+    have hmem := mem_forgetObjs jd ho
+    have hwo := hall _ hmem
+    simp only [forgetObj] at hwo
+    cases hwo with
+    | obj hp _ =>
+      have hpm := mem_forgetProps jd hnp
+      have := hp _ hpm
+      obtain ⟨pn, pp⟩ := np
+      cases pp with
+      | mk ty disp req rif rifn conf dflt ex dis reason =>
+        simp only [DProp.ty] at hty
+        subst hty
+        simp only [forgetProp, PropT.ty, forget] at this
+        cases this with
+        | ref hlk => simp [hlk]
+
+/-- the coordinator's witness: a reference into a foreign namespace in an object the root does not
+    even mention is rejected; so is the same reference under a list in a non-root object -/
+def c10ForeignInChild (leaf : DTy) : DTy :=
+  .scope
+    [("Root", .mk "Root" false [("child", .mk (.ref "Child" "" none) none false [] [] [] none [] false none)]),
+     ("Child", .mk "Child" false [("leaf", .mk leaf none false [] [] [] none [] false none)]),
+     ("T", .mk "T" false [])]
+    "Root"
+
+example : linkCheck c10JD (c10ForeignInChild (.ref "T" "" none)) = true := by decide +kernel
+example : linkCheck c10JD (c10ForeignInChild (.ref "T" "other" none)) = false := by decide +kernel
+example : linkCheck c10JD (c10ForeignInChild (.list (.ref "T" "other" none) none none)) = false := by decide +kernel
+example : linkCheck c10JD (c10ForeignInChild (.oneOf false "t" false [(.s "a", .ref "T" "other" none)])) = false := by
+  decide +kernel
+example : linkCheck c10JD (c10ForeignInChild (.ref "Nope" "" none)) = false := by decide +kernel
 end Arca
 
 #print axioms Arca.C10_total
@@ -149,3 +251,4 @@ end Arca
 #print axioms Arca.C10_usable
 #print axioms Arca.C10_usable_schema
 #print axioms Arca.C10_root_id
+#print axioms Arca.C10_all_objects
